@@ -33,4 +33,67 @@ for mod in (xfrm, netlink):
 out['xfrm_consts'] = {n: int(getattr(xfrm, n)) for n in dir(xfrm) if n.startswith(('XFRM', 'NLM')) and isinstance(getattr(xfrm, n), int)}
 out['netlink_consts'] = {n: int(getattr(netlink, n)) for n in dir(netlink) if n.startswith(('NLM',)) and isinstance(getattr(netlink, n), int)}
 out['mode'] = {m.name: int(m.value) for m in xfrm.Mode}
+
+
+# C14 additions (existing keys above are unchanged) -------------------------------------------------------
+def byteorder(cls):
+    """observed, not inferred from type names: store 0x0102 in the field (or element 0 of an array field) of a
+    fresh object and look at the bytes of the object: 'big' | 'little' | 'byte' | 'bytes' | 'struct' | 'other'"""
+    res = {}
+    for name, t in cls._fields_:
+        d = getattr(cls, name)
+        try:
+            if issubclass(t, ctypes.Structure):
+                res[name] = 'struct'
+                continue
+            obj = cls()
+            if issubclass(t, ctypes.Array):
+                el = t._type_
+                if issubclass(el, ctypes.Structure):
+                    res[name] = 'struct'
+                    continue
+                width = ctypes.sizeof(el)
+                if width == 1:
+                    res[name] = 'bytes'
+                    continue
+                getattr(obj, name)[0] = 0x0102
+            else:
+                width = d.size
+                if width == 1:
+                    res[name] = 'byte'
+                    continue
+                setattr(obj, name, 0x0102)
+            raw = bytes(obj)[d.offset:d.offset + width]
+            res[name] = ('big' if raw == (0x0102).to_bytes(width, 'big') else
+                         'little' if raw == (0x0102).to_bytes(width, 'little') else 'other')
+        except Exception as e:     # reported as a failed item by the consumer
+            res[name] = 'error: %s' % type(e).__name__
+    return res
+
+
+out['ctypes_byteorder'] = {}
+out['ctypes_module'] = {}
+for mod in (xfrm, netlink):
+    for n in dir(mod):
+        c = getattr(mod, n)
+        if isinstance(c, type) and issubclass(c, ctypes.Structure) and hasattr(c, '_fields_'):
+            out['ctypes_byteorder'][n] = byteorder(c)
+            out['ctypes_module'][n] = c.__module__
+# the attribute wrapper built by NetlinkProtocol._attribute_factory around each value class
+out['attr_layout'] = {}
+for n in sorted(out['ctypes']):
+    c = getattr(xfrm, n, None) or getattr(netlink, n)
+    try:
+        a = netlink.NetlinkProtocol._attribute_factory(0x1234, c())
+        lay = layout(type(a))
+        lay['len_value'] = int(a.len)
+        lay['code_value'] = int(a.code)
+        lay['bytes_len'] = len(bytes(a))
+        out['attr_layout'][n] = lay
+    except Exception as e:
+        out['attr_layout'][n] = {'error': '%s: %s' % (type(e).__name__, e)}
+out['netlink_family'] = int(xfrm.Xfrm.netlink_family) if xfrm.Xfrm.netlink_family is not None else None
+out['payload_types'] = {int(k): v.__name__ for k, v in xfrm.Xfrm.payload_types.items()}
+out['attribute_types'] = {int(k): v.__name__ for k, v in xfrm.Xfrm.attribute_types.items()}
+out['byteorder_host'] = sys.byteorder
 json.dump(out, sys.stdout)
